@@ -215,6 +215,7 @@ func c09Values(ch *characteristic.Characteristic) []c09Val {
 		add("html", `<b>&amp;</b> <script>alert(1)</script>`)
 		add("non-bmp", "smile 😀 and 𝄞 clef, ü, 日本")
 		add("control", "tab\there\nnewline sep")
+		add("protocol", "HTTP/1.0 is not HTTP/1.1, EVENT/1.0 200 OK\r\nContent-Length: 0\r\n\r\nHTTP/1.0")
 		add("1KiB", strings.Repeat("0123456789abcdef", 64))
 		add("3000", strings.Repeat("xyz", 1000))
 	case characteristic.FormatTLV8, characteristic.FormatData:
